@@ -41,6 +41,24 @@ Continue(ln)       == [k |-> "continue", ln |-> ln]
 BreakIf(c, ln)     == [k |-> "breakif", c |-> c, ln |-> ln]
 ContinueIf(c, ln)  == [k |-> "continueif", c |-> c, ln |-> ln]
 
+\* a reference to a layout / component file: written "~n" when alias, resolved against "layouts/" or "components/"
+NoUse == [alias |-> FALSE, n |-> ""]
+Ref(n) == [alias |-> FALSE, n |-> n]
+Alias(n) == [alias |-> TRUE, n |-> n]
+Written(r) == IF r.alias THEN "~" \o r.n ELSE r.n
+Resolve(r, prefix) == IF r.alias THEN prefix \o "/" \o r.n ELSE r.n
+\* statements of template trees (machine K links them, see TwLink): unlinked forms as written in a file ...
+Reserve(n, ln)         == [k |-> "reserve", name |-> n, ln |-> ln]
+InsertB(n, body, ln)   == [k |-> "insert", name |-> n, form |-> "block", body |-> body, ln |-> ln]
+InsertE(n, e, ln)      == [k |-> "insert", name |-> n, form |-> "expr", e |-> e, ln |-> ln]
+Comp(n, args, slots, ln) == [k |-> "comp", name |-> n, args |-> args, slots |-> slots, ln |-> ln]   \* args: seq of [key, ex]; slots: seq of [name, body]
+Slot(n, ln)            == [k |-> "slot", name |-> n, ln |-> ln]
+\* ... and linked forms produced by TwLink
+XReserveB(body, ln)    == [k |-> "xreserveb", body |-> body, ln |-> ln]
+XReserveE(e, ln)       == [k |-> "xreservee", e |-> e, ln |-> ln]
+XComp(args, body, ln)  == [k |-> "xcomp", args |-> args, body |-> body, ln |-> ln]
+XSlot(body, ln)        == [k |-> "xslot", body |-> body, ln |-> ln]
+
 Top == ctrl[Len(ctrl)]
 Pop(st) == SubSeq(st, 1, Len(st) - 1)
 SeqF(ss) == [f |-> "seq", ss |-> ss, i |-> 1]
@@ -165,6 +183,26 @@ StepForNext ==
           ELSE IF fr.n >= MaxPasses THEN Stop("unspec", "loop longer than the modelled bound", 0)
           ELSE /\ ctrl' = [ctrl EXCEPT ![Len(ctrl)] = [@ EXCEPT !.n = @ + 1, !.fresh = FALSE]] \o <<SeqF(fr.body)>>
                /\ env' = afterPost.sc /\ UNCHANGED out /\ Run
+\* C07: every argument is evaluated at the place of use and bound in a fresh scope of the component, the
+\* surrounding variables stay visible; the scope vanishes when the component ends
+RECURSIVE BindArgs(_, _, _)
+BindArgs(args, callerEnv, scope) ==
+  IF args = <<>> THEN [t |-> "env", sc |-> <<scope>> \o callerEnv]
+  ELSE LET v == Ev(args[1].ex, callerEnv) IN
+       IF Bad(v) THEN v
+       ELSE IF args[1].key = "loop" THEN Unspec
+       ELSE LET old == Lookup(callerEnv, args[1].key) IN
+            IF ~IsErr(old) /\ old.t # v.t THEN Unspec     \* an argument that collides with a visible name of another type
+            ELSE BindArgs(Tail(args), callerEnv, BindIn(scope, args[1].key, v))
+\* with two or more failing arguments the reported one is not fixed (C14 only asks for determinism)
+ArgsFail(args, sc) == Cardinality({i \in 1..Len(args) : Bad(Ev(args[i].ex, sc))})
+StepXComp(s) == IF ArgsFail(s.args, env) > 1 THEN Stop("err", "component arguments", 0)
+                ELSE LET r == BindArgs(s.args, env, <<>>) IN
+                IF r.t # "env" THEN StopBad(r, s.ln)
+                ELSE /\ ctrl' = Advance \o <<ScopeF, SeqF(s.body)>> /\ env' = r.sc /\ UNCHANGED out /\ Run
+StepInline(body) == /\ ctrl' = Advance \o <<SeqF(body)>> /\ UNCHANGED <<env, out>> /\ Run
+StepSkip == /\ ctrl' = Advance /\ UNCHANGED <<env, out>> /\ Run
+
 StepCondJump(s, keepLoop) ==
   LET v == Ev(s.c, env) IN
   IF Bad(v) THEN StopBad(v, s.ln)
@@ -190,6 +228,12 @@ Step ==
                         [] s.k = "continue" -> Unwind(TRUE)
                         [] s.k = "breakif" -> StepCondJump(s, FALSE)
                         [] s.k = "continueif" -> StepCondJump(s, TRUE)
+                        [] s.k = "xreserveb" -> StepInline(s.body)
+                        [] s.k = "xreservee" -> StepPrint(s)
+                        [] s.k = "xcomp" -> StepXComp(s)
+                        [] s.k = "xslot" -> StepInline(s.body)
+                        [] s.k \in {"reserve", "insert", "slot"} -> StepSkip
+                        [] s.k = "comp" -> Stop("unspec", "component that was never linked", 0)
 
 \* the root scope is built from the data map (object.EnvFromMap): 'loop' cannot be supplied as data (C04)
 RECURSIVE RootScope(_, _)
